@@ -155,6 +155,7 @@ type Cfg struct {
 	ViaServer     int // 1: the connection is accepted by a qnet.TcpServer and the endpoint comes from its backlog channel
 	GCAfter       int // free mode: after Close returned drop every reference to the endpoint and force two GC cycles before the (late) peer starts reading
 	Reentrant     int // free mode: the LAST sender is driven by the inbound consumer (one reply per delivered packet, sent through pkt.Endpoint()), the LAST closer by the error-channel consumer (it calls Close on the error's endpoint)
+	SendDelay     int // free mode: every sender waits this many ms before its first SendPacket
 	ConsumerPause int // free mode: the inbound consumer sleeps this many ms before its first receive and again after it has taken Icap+1 packets, then drains
 	BurstEvery    int // free mode: every sender pauses 3 ms after each BurstEvery packets (fill, drain, reuse)
 	Chunked       int // free mode: the peer writes its input as one byte stream cut into random chunks (frames share segments / span segments)
@@ -184,7 +185,7 @@ func (c Cfg) Sx() Sx {
 	return List(Int(int64(c.Mode)), Int(int64(c.Codec)), Bool(c.Cipher), Int(int64(c.Ocap)), Int(int64(c.Icap)),
 		Int(int64(c.Ecap)), Bool(c.HasWriter), Bool(c.HasReader), ListOf(snd), ListOf(cls), ListOf(in),
 		Int(int64(c.PeerRead)), Int(int64(c.InConsumer)), Uint(c.Seed), ListOf(sc), Int(int64(c.CloseAfter)),
-		Int(int64(c.LateSend)), Ints(int64(c.FailAfter), int64(c.Immediate), int64(c.MaxProcs), int64(c.ReadTimeout), int64(c.LateInput), int64(c.WaitInput), int64(c.SmallBuf), int64(c.Transport), int64(c.ViaServer), int64(c.GCAfter), int64(c.Chunked), int64(c.Reentrant), int64(c.BurstEvery), int64(c.ConsumerPause)))
+		Int(int64(c.LateSend)), Ints(int64(c.FailAfter), int64(c.Immediate), int64(c.MaxProcs), int64(c.ReadTimeout), int64(c.LateInput), int64(c.WaitInput), int64(c.SmallBuf), int64(c.Transport), int64(c.ViaServer), int64(c.GCAfter), int64(c.Chunked), int64(c.Reentrant), int64(c.BurstEvery), int64(c.ConsumerPause), int64(c.SendDelay)))
 }
 
 func CfgOfSx(s Sx) Cfg {
@@ -228,6 +229,9 @@ func CfgOfSx(s Sx) Cfg {
 		}
 		if x.Len() > 13 {
 			c.ConsumerPause = x.At(13).AsInt()
+		}
+		if x.Len() > 14 {
+			c.SendDelay = x.At(14).AsInt()
 		}
 	}
 	return c
@@ -751,6 +755,9 @@ func (sim *Sim) senderMain(i int) {
 		th.finished = true
 		sim.mu.Unlock()
 	}()
+	if sim.cfg.SendDelay > 0 && sim.cfg.Mode == 0 {
+		time.Sleep(time.Duration(sim.cfg.SendDelay) * time.Millisecond)
+	}
 	for k, p := range sim.cfg.Senders[i] {
 		if be := sim.cfg.BurstEvery; be > 0 && sim.cfg.Mode == 0 && k > 0 && k%be == 0 {
 			time.Sleep(3 * time.Millisecond) // let the queue drain, then use it again
